@@ -47,12 +47,18 @@ def fold_extract(ctx, model, temperature=None, pressure=None):
 def r_extract(ctx, model):
     w = model.where(f"{EXTRACT}:main")
     TV, PV = sp.Symbol("TREQ", real=True), sp.Symbol("PREQ", real=True)
-    for label, kw, axis, other, req in (("-T", dict(temperature=TV), "T", "P", TV), ("-P", dict(pressure=PV), "P", "T", PV)):
+    failed = set()
+    Z = sp.Integer(0)
+    for label, kw, axis, other, req in (("-T 0", dict(temperature=Z), "T", "P", Z), ("-P 0", dict(pressure=Z), "P", "T", Z),
+                                        ("-T", dict(temperature=TV), "T", "P", TV), ("-P", dict(pressure=PV), "P", "T", PV)):
+        if label[:2] in failed:
+            continue            # the request with value 0 already fails: the general request is not folded on top of it
         try:
             out = fold_extract(ctx, model, **kw)
         except RaisedV as e:
             ctx.violation(f"extract.{label}", w, "the command completes", f"raises {e.exc_name}", f"extract {label} raises {e.exc_name} (e.g. a result labelled by the wrong axis)",
                           instance=f"extract {label}: nearest {axis} entry of each variable, labelled by {other}")
+            failed.add(label[:2])
             continue
         t = out.get("table")
         if not isinstance(t, OutTable):
@@ -76,6 +82,8 @@ def r_extract(ctx, model):
         opts = out.get("opts", {})
         if opts.get("header", True) is not True or opts.get("index", True) is False:
             bad.append(f"printed with {opts}")
+        if bad:
+            failed.add(label[:2])
         ctx.check(not bad, f"extract {label}: nearest {axis} entry of each variable, labelled by {other}", w,
                   expected=f"for each variable the line of its table with {axis} fixed at argmin |{axis} labels - requested|, running along and labelled by {other}",
                   found="; ".join(bad) or "as required",
@@ -114,7 +122,17 @@ def r_load(ctx, model):
         intr.update({"glob.glob": glob_, "pandas.read_table": read_table, "pandas.read_csv": read_table, "builtins.float": lambda ev, a, k: a[0],
                      "numpy.float64": lambda ev, a, k: a[0]})
         ev = Ev(model, {}, intr, ctx=ctx)
-        t = ev.call_def(f, model.mods[modname], ref, ["VARNAME"], {})
+        try:
+            t = ev.call_def(f, model.mods[modname], ref, ["VARNAME"], {})
+        except AnalysisError as e:
+            lm = getattr(e, "label_mismatch", None)
+            if lm is None:
+                raise
+            ctx.violation(f"{modname}.load.labels", w, expected=f"{lm[0]} labels = float(label) of the table's own {lm[0]}", found=f"{lm[0]} <- {str(lm[1])[:120]}",
+                          explanation=f"{modname.split('.')[-1]}.load_data replaces the table's {lm[0]} labels by something other than their float values (truncated, rounded, "
+                                      f"re-numbered or taken from the other axis): the nearest-value search and the printed labels no longer refer to the table's own grid",
+                          instance=f"{modname.split('.')[-1]}.load_data labels")
+            continue
         a, k = cap.get("read", ((), {}))
         ok = isinstance(t, Table) and t.parsed == {"index": True, "columns": True} and a and a[0] == "FILE0" and k.get("index_col") == 0 \
             and (whitespace_sep(k.get("sep")) or k.get("delim_whitespace") is True)
